@@ -70,6 +70,7 @@ macro_rules! dispatch {
             "C08" => $f(&props::c08::C08 $(, $arg)*),
             "C18" => $f(&props::c18::C18 $(, $arg)*),
             "C17" => $f(&props::c17::C17 $(, $arg)*),
+            "C16" => $f(&props::c16::C16 $(, $arg)*),
             other => {
                 eprintln!("unknown property {}", other);
                 3
